@@ -197,6 +197,9 @@ NULLABLE_KINDS = ('f', 'c', 'm', 'M', 'O')      # the kinds for which isna_array
 MISSING_PREDICATES = ('isna_array', 'np.isnan', 'np.isnat', 'isna_element', 'np.not_equal')
 
 
+_DTYPE_CONST_KINDS = {'DTYPE_OBJECT': 'O', 'DTYPE_BOOL': 'b', 'DTYPE_STR': 'U', 'DTYPE_INT_DEFAULT': 'i', 'DTYPE_FLOAT_DEFAULT': 'f', 'DTYPE_COMPLEX_DEFAULT': 'c'}
+
+
 def _const_table(prog) -> tp.Dict[str, tp.Any]:
     '''Module-level str / tuple-of-str constants of util (DTYPE_*_KINDS and friends), resolved transitively.'''
     util = [m for m in prog.modules.values() if m.short == 'util'][0]
@@ -215,6 +218,8 @@ def _const_eval(e: ast.expr, table: tp.Mapping[str, tp.Any]) -> tp.Any:
         return e.value
     if isinstance(e, ast.Name) and e.id in table:
         return table[e.id]
+    if isinstance(e, ast.Attribute) and e.attr == 'kind' and isinstance(e.value, ast.Name) and e.value.id in _DTYPE_CONST_KINDS:
+        return _DTYPE_CONST_KINDS[e.value.id]
     if isinstance(e, (ast.Tuple, ast.List, ast.Set)):
         out = []
         for x in e.elts:
@@ -239,7 +244,8 @@ def _const_eval(e: ast.expr, table: tp.Mapping[str, tp.Any]) -> tp.Any:
 def _eval_kind_test(t: ast.expr, kind_names: tp.Set[str], k: str, table: tp.Mapping[str, tp.Any]) -> tp.Optional[bool]:
     '''Truth of a test for the concrete dtype kind k; None when the test is not (only) about the kind.'''
     def is_kind(e: ast.expr) -> bool:
-        return (isinstance(e, ast.Name) and e.id in kind_names) or (isinstance(e, ast.Attribute) and e.attr == 'kind' and isinstance(e.value, ast.Attribute) and e.value.attr == 'dtype')
+        return (isinstance(e, ast.Name) and e.id in kind_names) or (isinstance(e, ast.Attribute) and e.attr == 'kind' and isinstance(e.value, ast.Attribute)
+                                                                 and (e.value.attr == 'dtype' or e.value.attr.endswith('_dtype')))
     if isinstance(t, ast.BoolOp):
         vals = [_eval_kind_test(v, kind_names, k, table) for v in t.values]
         if isinstance(t.op, ast.And):
@@ -259,6 +265,8 @@ def _eval_kind_test(t: ast.expr, kind_names: tp.Set[str], k: str, table: tp.Mapp
         if k == kk:
             return isinstance(t.ops[0], ast.Eq)         # object / bool: the kind has exactly one dtype
         return isinstance(t.ops[0], ast.NotEq)
+    if isinstance(t, ast.Compare) and len(t.ops) == 1 and isinstance(t.ops[0], (ast.Eq, ast.NotEq)) and is_kind(t.comparators[0]) and not is_kind(t.left):
+        t = ast.Compare(left=t.comparators[0], ops=t.ops, comparators=[t.left])
     if isinstance(t, ast.Compare) and len(t.ops) == 1 and is_kind(t.left):
         rhs = _const_eval(t.comparators[0], table)
         if rhs is None:
@@ -285,8 +293,17 @@ def nullable_kinds(ctx: Ctx) -> None:
     table = _const_table(prog)
     ctx.require(table.get('DTYPE_INEXACT_KINDS') is not None and table.get('DTYPE_NAT_KINDS') is not None, 'dtype-kind constant tables of util')
     n = 0
-    for qual in ('util.isna_array', 'util._ufunc_logical_skipna', 'util._argminmax_1d', 'util._argminmax_2d', 'frame.Frame.count', 'series.Series.count'):
+    for qual in ('util.isna_array', 'util._ufunc_logical_skipna', 'util._argminmax_1d', 'util._argminmax_2d', 'frame.Frame.count', 'series.Series.count',
+                 'type_blocks.TypeBlocks.equals', 'series.Series.equals', 'index.Index.equals'):
         f = prog.func(qual)
+        equals_mode = f.name == 'equals'
+        # equals: from the elementwise comparison of the two operands on, with skipna requested, no answer is returned before the missing masks were consulted
+        cmp_line = min([a.lineno for a in ast.walk(f.node) if isinstance(a, ast.Assign) and isinstance(a.value, ast.Compare) and len(a.value.ops) == 1
+                        and isinstance(a.value.ops[0], ast.Eq) and {'self', 'other'} <= {x.id for x in ast.walk(a.value) if isinstance(x, ast.Name)}] or [10 ** 9])
+        if equals_mode:
+            ctx.require(cmp_line < 10 ** 9, f'{qual} compares the operands elementwise')
+        # a return inside an except handler answers for a comparison that could not be made at all
+        in_handler = {id(r) for h in ast.walk(f.node) if isinstance(h, ast.ExceptHandler) for r in ast.walk(h) if isinstance(r, ast.Return)}
         kind_names = set(roles.assigned_from_all(f.node, lambda v: isinstance(v, ast.Attribute) and v.attr == 'kind'))
         counting = f.name == 'count'       # count: each result cell is a count of non-missing cells
         for k in NULLABLE_KINDS:
@@ -305,7 +322,13 @@ def nullable_kinds(ctx: Ctx) -> None:
                     if v is not None and v != truth:
                         return None
                     if isinstance(atom, ast.Name) and atom.id == 'skipna':
+                        if st[1] is not None and st[1] != truth:
+                            return None
                         return (st[0], truth)
+                    # `eq is False`: NumPy collapsed the comparison to a scalar — the operands are not comparable cell by cell, nothing to consult
+                    if truth and isinstance(atom, ast.Compare) and len(atom.ops) == 1 and isinstance(atom.ops[0], ast.Is) \
+                            and isinstance(atom.comparators[0], ast.Constant) and atom.comparators[0].value is False:
+                        return (True, st[1])
                     # an empty array holds no missing value: nothing to consult on that branch
                     if truth and isinstance(atom, ast.Compare) and len(atom.ops) == 1 and isinstance(atom.ops[0], ast.Eq) and norm(atom.comparators[0]) == '0' \
                             and (call_name(atom.left) == 'len' if isinstance(atom.left, ast.Call) else norm(atom.left).endswith('.size')):
@@ -313,15 +336,23 @@ def nullable_kinds(ctx: Ctx) -> None:
                     return st
 
                 def on_expr(self, node, st):
-                    if isinstance(node, ast.Call) and call_name(node) in MISSING_PREDICATES:
+                    if isinstance(node, ast.Call) and (call_name(node) in MISSING_PREDICATES or (isinstance(node.func, ast.Attribute) and node.func.attr in ('isna', 'notna'))):
                         return (True, st[1])
                     if isinstance(node, ast.Compare) and len(node.ops) == 1 and isinstance(node.ops[0], ast.NotEq) and norm(node.left) == norm(node.comparators[0]):
                         return (True, st[1])
-                    if isinstance(node, ast.Compare) and any(isinstance(c_, ast.Constant) and c_.value is None for c_ in node.comparators):
+                    # an elementwise comparison with None (`array == None`); an identity test `x is None` looks at no cell
+                    if isinstance(node, ast.Compare) and len(node.ops) == 1 and isinstance(node.ops[0], (ast.Eq, ast.NotEq)) \
+                            and any(isinstance(c_, ast.Constant) and c_.value is None for c_ in node.comparators):
                         return (True, st[1])
                     return st
 
                 def on_return(self, s, st):
+                    if equals_mode:
+                        # the analysis runs the scenario "skipna requested" (initial flag True): whatever the flag became on the way, an answer
+                        # after the elementwise comparison must have consulted the missing masks
+                        if s.lineno > cmp_line and not st[0] and id(s) not in in_handler:
+                            self.bad.append(s)
+                        return
                     if counting:
                         # count: only a count taken from the length alone, while missing cells are to be skipped, is a shortcut
                         if not st[0] and st[1] is not False and s.value is not None and any(isinstance(x, ast.Call) and call_name(x) == 'len' for x in ast.walk(s.value)):
@@ -330,13 +361,23 @@ def nullable_kinds(ctx: Ctx) -> None:
                         self.bad.append(s)
 
                 def on_stmt(self, s, st):
+                    # a flag recomputed from the kind (`skipna = kind in ...`) takes the value that test has for this kind
+                    if isinstance(s, ast.Assign) and len(s.targets) == 1 and isinstance(s.targets[0], ast.Name) and s.targets[0].id == 'skipna':
+                        v = _eval_kind_test(s.value, kind_names, k, table)
+                        if v is None and isinstance(s.value, ast.BoolOp) and isinstance(s.value.op, ast.And):
+                            # skipna and <kind test>
+                            rest = [x for x in s.value.values if not (isinstance(x, ast.Name) and x.id == 'skipna')]
+                            vv = [_eval_kind_test(x, kind_names, k, table) for x in rest]
+                            if any(x is False for x in vv):
+                                v = False
+                        return (st[0], v if v is not None else st[1])
                     # count: a result cell computed from the length alone before any predicate was consulted, while missing cells are to be skipped
                     if counting and isinstance(s, ast.Assign) and isinstance(s.targets[0], ast.Subscript) and not st[0] and st[1] is not False \
                             and any(isinstance(x, ast.Call) and call_name(x) == 'len' for x in ast.walk(s.value)):
                         self.bad.append(s)
                     return st
             c = C()
-            flow.Engine(c).run(f.node.body, (False, None))
+            flow.Engine(c).run(f.node.body, (False, True if equals_mode else None))
             n += 1
             key = f'{f.name}:kind={k}'
             if c.bad:
